@@ -11,7 +11,13 @@
        held    the lock CLASSES certainly held there: inferred entry lock set of the enclosing function
                (greatest fixpoint of the intersection over all call sites; exported functions, go statements,
                timer callbacks and escaping closures start from the empty set) united with the locks taken locally
-       ph      Construct: before the object / variable can be reached by another goroutine; Shared otherwise
+       ph      Construct: before the object / variable can be reached by another goroutine; Shared otherwise.
+               For a field of a locally allocated object (&T{..}, new(T), T{..}, var x T, the result of a constructor
+               of the scanned files that returns a fresh object on every path) this is decided by a flow analysis of
+               the allocating function (lockscan/objflow.go), not by the shape of its statements: Construct iff on
+               every path to the access the object has neither escaped (returned, stored, sent, captured by a go
+               statement or by a closure that does not run inline, passed to a function that is not followed) nor been
+               published by an atomic operation; helpers that receive the object in a direct call are followed
        own     the access is in the body of the function that declares the captured variable (not inside a closure
                that may run elsewhere): all such accesses to one variable instance are by one goroutine
        forked  for an access in the body of a `go func(){..}()` literal: the locks held at the go statement
@@ -69,8 +75,12 @@ Inductive phase := Construct | Shared.
 Inductive shape :=
 | SNone
 | SPreClose (c g : nat)   (* in a region entered only by the first Swap on atomic g, before close(c) on every path *)
-| SPostRecv (c : nat)     (* after a receive on c *)
-| SPreCAS (s : nat)       (* through a pointer to a fresh object whose only escape is as the new value of a CAS/Store on s *)
+| SPostRecv (c : nat)     (* after a receive on c (SPreClose / SPostRecv / SPostLoad are inherited by a helper function from its
+                             call sites when ALL of them are plain calls that establish the same shape for the object passed) *)
+| SPreCAS (s : nat)       (* through a pointer to a fresh object whose only escape is as the new value of a CAS/Store on s,
+                             at a point where, on every path, no such CAS has succeeded / Store has executed yet (flow analysis
+                             of the allocating function, through the helpers it hands the object to): "written by the
+                             allocating goroutine before the publishing operation", the hypothesis of cas_publish_sound *)
 | SPostLoad (s : nat).    (* through a pointer obtained from s.Load() *)
 
 Record access := mkAcc { site : nat; wr : bool; held : list nat; ph : phase; own : bool; forked : list nat; shp : shape }.
